@@ -33,13 +33,13 @@ CHECKS = {
   text="fork.Map/FMap/Filter/Partition/ForEach/Void with par 1..3 (4), inputs up to par*k<=6 (quick) / 3x3, 2x4, 4x2 (thorough), input capacity {0,k}, all failure/predicate patterns, Pure/Try (and Lift for the closure clauses); the user function yields, so in-flight calls complete in every order; every interleaving (state-cached, sibling workers identified up to permutation): each element processed exactly once, output and error multisets equal the sequential stage's, nothing sent on a closed channel, and the C06 closure / cancel / no-leak clauses with consumers that leave, cancel, unread error channel; par x k in {5x3, 9x2, 17x3, 33x2, 2x9, 3x17, 4x33} up to 2 (3) deviations from the default schedule; failing visitors for ForEach; one F value shared by two stages. Data races on variables shared between goroutines are turned into explored interleavings by gosim (scheduling point before every statement touching a closure-captured or package-level variable that some goroutine body assigns).",
   note=NOTE_E1 + "Symmetry reduction assumes worker goroutines started by one go statement run identical code (true of fork.go; a change that makes workers differ only by a captured index would be merged). Races on heap objects reached through pointers are not modelled (sequentially consistent scheduler); GOMAXPROCS is irrelevant to a model that enumerates all interleavings."),
  "C10": dict(engine=E1, category="model_checking", technique=T_E1, ref="DESIGN.md 3, 5/C10",
-  text="fork.Fold for par 1..3, every input sequence of length <=3 (4) over a 3-letter alphabet incl. empty and shorter than par, monoids sum (injective weights: the sum is the bag of elements), product, max, min, and, or, input capacity {0,len}; every interleaving = every distribution of elements over workers and arrival order at the collector: exactly one value equal to the sequential left fold, then closed, nothing left running; 5..65 workers over 0, 2, 7 elements up to 2 (3) deviations from the default schedule; 300 workers idle next to an independent 2-worker fold.",
+  text="fork.Fold for par 1..3, every input sequence of length <=3 (4) over a 3-letter alphabet incl. empty and shorter than par, monoids sum (injective weights: the sum is the bag of elements), product, max, min, and, or, input capacity {0,len}; every interleaving = every distribution of elements over workers and arrival order at the collector: exactly one value equal to the sequential left fold, then closed, nothing left running; 5..65 workers over 0, 2, 7 elements up to 2 (3) deviations from the default schedule; 300 workers idle next to an independent 2-worker fold; with a free canceller over an unbuffered input (par 1..3 x k<=3): at most one value, and it is the fold of exactly the elements the stage took, everything closes.",
   note=NOTE_E1 + "Same symmetry assumption as C09."),
  "C11": dict(engine=E1, category="model_checking", technique=T_E1, ref="DESIGN.md 3, 5/C11",
   text="Emit (cap 0..2, frequency 1 and 3 ticks, Pure / Try with all 15 failing subsets of indices 0..3 / Lift) and Unfold (cap 0..2, three step functions) against every consumer gap script over {0,f,2f} up to 3 (4) receives, and against a canceller firing at every clock grid point, on rt's virtual clock with every same-instant interleaving explored: exact successive sequence, function called at most once per tick (call i not before i ticks, consecutive calls >= f apart), no value before its tick, a keep-up consumer receives index i exactly at tick i+1, after cancel both channels close and the generator exits (also when nobody reads the error channel).",
   note=NOTE_E1 + "Time is rt's virtual clock (advances only when no thread can run - the testing/synctest rule); real-time jitter is not modelled."),
  "C12": dict(engine=E1, category="model_checking", technique=T_E1, ref="DESIGN.md 3, 5/C12",
-  text="Join over every combination of 0..3 inputs with 0..2 distinct elements each, capacities 0..1, one producer per input, canceller absent or free, every interleaving: received sequence is an interleaving of the inputs (per-input order, no loss, duplicate or invention), the output closes exactly when all producers have closed (the consumer reads a shared counter at the moment it observes the close), closes with zero inputs, no goroutine left; any-typed inputs with a nil interface element; wide fan-in of 5..24 inputs up to 2 (3) deviations from the default schedule; the same channel passed twice.",
+  text="Join over every combination of 0..3 inputs with 0..2 distinct elements each, capacities 0..1, one producer per input, canceller absent or free, every interleaving: received sequence is an interleaving of the inputs (per-input order, no loss, duplicate or invention), the output closes exactly when all producers have closed (the consumer reads a shared counter at the moment it observes the close), closes with zero inputs, no goroutine left; any-typed inputs with a nil interface element; wide fan-in of 5..24 inputs up to 2 (3) deviations from the default schedule; the same channel passed twice; producers that go idle instead of closing (2..20 inputs): everything sent is delivered; a consumer five minutes late on the virtual clock.",
   note=NOTE_E1 + "Quick tier: <=4 elements on <=2 inputs, <=3 on 3 inputs; thorough: all combinations up to 2+2+2 (preemption bound 4 at 6 elements)."),
  "C08": dict(engine=E1, category="model_checking", technique=T_E1, ref="DESIGN.md 3, 5/C08",
   text="Every interleaving (unbounded, state-cached) of the translated pipe.New pump with 1-2 senders, a receiver and a free canceller, for capacities 0..2 (3), 0..3 (4) sends, sender close, receiver drain/stop/absent and both sync.Pool recycling policies, is checked for FIFO, exactly-once, delivery of every completed send after cancel, clean end of stream on sender close, sender never waiting for the receiver, and no library panic; single-sender runs of 9, 17, 33 (65) sends up to 3 (4) deviations from the default schedule (a backlog beyond any small fixed buffer, at every head position); element type any with nil values.",
@@ -60,13 +60,13 @@ CHECKS = {
   text="eq.Int/ord.Int over 9 boundary ints and eq.String/ord.String over 13 strings (all pairs, all triples): agreement with ==,<,>, equivalence and total-order laws, Ord EQ iff Eq; From wrappers and ContraMap with asymmetric base instances (argument order), monoid.From/FromOp/semigroup.From with non-commutative operations; comparator results outside {LT,EQ,GT} handed on as they are; strings sharing storage with their own prefixes.",
   note="Values outside the alphabets are not covered (explicit limit of the statement's quantifier for a bounded check)."),
  "C18": dict(engine=E2, category="model_checking", technique="explicit-state BFS over all reachable states of the real skip list (enumerated node heights), reference map comparison on every transition", ref="DESIGN.md 4, 5/C18",
-  text="All reachable states (not a depth bound) of the skip list for 3 keys x 2 values x heights 1..3, 4 keys x heights 1..2 (1..3 under ord.Int), 2 keys x heights 1..8 (thorough: 4 keys x heights 1..4, 5 keys x heights 1..3, 3 keys x heights 1..6) under ord.Int, a reversed ord.From and ord.String; a state is the complete object graph of the list (every field of the list and of every node, by reflection, pointers normalised); every Put/Get/Remove from every state is executed on a fresh real list: return values equal a map's, printed keys strictly ascending, forward pointers only to larger live keys.",
-  note="Node heights are chosen by the driver through a seam file added to the staged copy of the package (replaces the list's rand.Source only). Long random histories are not sampled."),
+  text="All reachable states (not a depth bound) of the skip list for 3 keys x 2 values x heights 1..3, 4 keys x heights 1..2 (1..3 under ord.Int), 2 keys x heights 1..8 (thorough: 4 keys x heights 1..4, 5 keys x heights 1..3, 3 keys x heights 1..6) under ord.Int, a reversed ord.From and ord.String; a state is the complete object graph of the list (every field of the list and of every node, by reflection, pointers normalised); every Put/Get/Remove from every state is executed on a fresh real list: return values equal a map's, printed keys strictly ascending, forward pointers only to larger live keys. Next to the exploration, one free-running -race execution of four goroutines working on lists of their own against plain maps (state shared between unshared lists is invisible to a sequential exploration).",
+  note="Node heights are chosen by the driver through a seam file added to the staged copy of the package (replaces the list's rand.Source only). Long random histories are not sampled. The race pass is a single execution, not an exploration; it can only add a violation, never remove one."),
  "C19": dict(engine=E2, category="model_checking", technique="bounded-exhaustive script enumeration (tree of persistent values, no de-duplication) on both real implementations against one reference", ref="DESIGN.md 4, 5/C19",
   text="From New(xs) for all xs over {1,2,3} of length <=3, every script of Cons(1|2|3)/Tail up to 6 (8) operations on the linked-list and on the slice trait: Length, IsEmpty, Head/Tail walk and Fold (non-commutative a*10+b from empty 7) equal the reference list; arguments and all earlier siblings are re-observed after later operations (persistence); starts from argument slices with spare capacity; sequences of 1025..4097 elements folded with an operation that is slow on one element.",
   note="Element values 1..3 stand for all values (parametricity)."),
- "C20": dict(engine=E2, category="exploration", technique="exhaustive enumeration over arities 2..20 x argument sets x function-level interleavings of two overlapping invocations", ref="DESIGN.md 5/C20",
-  text="Every exported PipeN found in the staged source (N=2..20): call trace = 1..N exactly once per invocation, value equals the sequential composition of pairwise non-commuting affine maps, nothing applied at composition time, nil interface values travel through an any-typed pipeline, re-entrant invocation from every position, and two overlapping invocations under all C(2N,N) function-level interleavings (N<=5) / all park points (N>5).",
+ "C20": dict(engine=E2, category="exploration", technique="exhaustive enumeration over arities 2..20 x argument sets x function-level interleavings of two overlapping invocations x build/invoke/panic histories over pairs of compositions", ref="DESIGN.md 5/C20",
+  text="Every exported PipeN found in the staged source (N=2..20): call trace = 1..N exactly once per invocation, value equals the sequential composition of pairwise non-commuting affine maps, nothing applied at composition time, nil interface values travel through an any-typed pipeline, re-entrant invocation from every position, two overlapping invocations under all C(2N,N) function-level interleavings (N<=5) / all park points (N>5), and histories over two compositions: X built, Y built (every arity), X/Y/X invoked; function k of X panics (every k, recovered) and X and every other composition are invoked again.",
   note="Data races inside PipeN itself are not modelled (invocations are gated)."),
 }
 
